@@ -525,6 +525,9 @@ func (e *Engine) contractFor(fn *ssa.Function, opts *VCOpts) *Contract {
 				if !defaultApplies(d, fn) {
 					continue next
 				}
+				if e.exempt[k] {
+					return nil // small helper seen through inlining (see prepareExempt)
+				}
 				return d
 			}
 		}
